@@ -32,11 +32,11 @@ TIERS = {
         field=[dict(MaxDepth=4, PointIdx={1, 5}, Octants={1, 4, 6}, PartnerIdx=2, Scales=set())],
         symbolic=False),
     "thorough": dict(
-        vector=[dict(MaxDepth=6, PointIdx={1, 2, 5}, Octants={1, 2, 3, 4, 5, 6, 7, 8}, PartnerIdx=4, Scales={2}),
-                dict(MaxDepth=4, PointIdx={3, 4, 6, 7, 8, 9, 10, 11, 12}, Octants={1, 4, 6, 7}, PartnerIdx=1, Scales={2, 3}),
+        vector=[dict(MaxDepth=6, PointIdx={1, 5}, Octants={1, 4, 6, 7}, PartnerIdx=4, Scales={2}),
+                dict(MaxDepth=4, PointIdx={1, 2, 3, 4, 5, 6, 7, 8, 9, 10, 11, 12}, Octants={2, 3, 5, 8}, PartnerIdx=1, Scales={2, 3}),
                 dict(MaxDepth=4, PointIdx={13, 14}, Octants={1, 2, 3, 4}, PartnerIdx=13, Scales={2})],
-        field=[dict(MaxDepth=5, PointIdx={1, 2, 5}, Octants={1, 4, 6, 7}, PartnerIdx=2, Scales=set()),
-               dict(MaxDepth=3, PointIdx={3, 6, 8, 12, 13}, Octants={2, 3, 5, 8}, PartnerIdx=2, Scales=set())],
+        field=[dict(MaxDepth=5, PointIdx={1, 5}, Octants={1, 4, 6, 7}, PartnerIdx=2, Scales=set()),
+               dict(MaxDepth=3, PointIdx={2, 3, 6, 8, 12, 13}, Octants={2, 3, 5, 8}, PartnerIdx=2, Scales=set())],
         symbolic=True),
 }
 MAX_DEGREE = 2
@@ -251,7 +251,7 @@ def _step_record(group, pre, act, arg, refused, post):
         a, b = group["a"], group["b"]
         post_obs = {"value": post["value"], "refused": post["refused"]}
     return {"obj": group["obj"], "repr": pre["kind"], "a": a, "b": b, "act": act, "arg": arg, "refused": bool(refused),
-            "post_repr": post["kind"], "post": post_obs}
+            "post_repr": post["kind"], "post": post_obs, "prefix": None}
 
 
 def _walk(ctx, group, state, trie, prefix):
@@ -293,6 +293,7 @@ def _walk(ctx, group, state, trie, prefix):
         ctx.observed[prefix + (key,)] = rec
         record = _step_record(group, ctx.observed[prefix], act, arg, refused, rec)
         if record is not None:
+            record["prefix"] = [list(k) for k in prefix + (key,)]
             ctx.records.append(record)
         _walk(ctx, group, new_state, node["next"], prefix + (key,))
 
@@ -432,8 +433,13 @@ def replay_file(path: str) -> int:
         bad = [v["what"] for v in run.violations]
     else:
         group = dict(obj=c["obj"], start=c["start"], a=c["a"], b=c["b"], ctor=c["ctor"], paths=[(0, c["path"])], gid=0)
-        _, problems, _, _, _ = replay_group(group)
+        _, problems, _, _, records = replay_group(group)
         bad = [f"{clause}: {what}" for _, clause, what in problems]
+        from . import c11_trace
+        run = Run(PID, "replay")
+        with Scratch() as sc:
+            c11_trace.validate(run, sc, [(group, records)], "replay")
+        bad += [f"{v['key']}: {v['what'][:200]}" for v in run.violations]
     for b in bad:
         print(f"VIOLATION property={PID} replay={path}\n  {b}")
     print("replayed:", data["key"], "->", "violation" if bad else "ok")
